@@ -129,3 +129,12 @@ Proof. vm_compute. reflexivity. Qed.
 
 Lemma identity_pins_ok : cap_identity_pins = expected_cap_identity_pins /\ node_identity_pins = expected_node_identity_pins.
 Proof. vm_compute. split; reflexivity. Qed.
+
+Definition expected_nodemaker_code_pins : list (string * string) := [
+    ("NodeMaker.create_from_cap", "28ee450dc16b55c4");
+    ("NodeMaker._create_from_single_cap", "0aa8e73854b2d118")].
+
+Lemma nodemaker_pins_ok :
+  nodemaker_code_pins = expected_nodemaker_code_pins
+  /\ (nodemaker_memokey_immutable, nodemaker_memokey_mutable) = ("I", "M").
+Proof. vm_compute. split; reflexivity. Qed.
